@@ -10,7 +10,7 @@ WT=/var/tmp/mut-$ID$SUF; OUT=/var/tmp/mut-$ID$SUF-out
 git -C /repo apply --check $OUT/patch.diff 2>/dev/null && echo "patch applies to /repo HEAD: yes" || echo "patch applies to /repo HEAD: NO"
 (cmake --build $WT/_build -j8 -- -k0 > /dev/null 2>&1; ctest --test-dir $WT/_build -j8 -E _NOT_BUILT 2>&1 | grep -E "tests passed|tests failed" )
 cd $OUT
-sh ./build_demo.sh > /dev/null 2>&1; ./demo > demo.changed.log 2>&1; echo "demo with change: exit $? ($(tail -1 demo.changed.log))"
-sed "s#$WT#/repo#g" build_demo.sh > build_demo_unchanged.sh
+rm -f demo; sh ./build_demo.sh > /dev/null 2>&1; ./demo > demo.changed.log 2>&1; echo "demo with change: exit $? ($(tail -1 demo.changed.log))"
+sed "s#$WT\\([/ \"]\\|\$\\)#/repo\\1#g" build_demo.sh > build_demo_unchanged.sh   # the worktree, not the -out directory next to it
 (cmake --build /repo/_build -j8 -- -k0 > /dev/null 2>&1)
-sh ./build_demo_unchanged.sh > /dev/null 2>&1; ./demo > demo.unchanged.log 2>&1; echo "demo without change: exit $? ($(tail -1 demo.unchanged.log))"
+rm -f demo; sh ./build_demo_unchanged.sh > /dev/null 2>&1; ./demo > demo.unchanged.log 2>&1; echo "demo without change: exit $? ($(tail -1 demo.unchanged.log))"
